@@ -276,6 +276,19 @@ def main(pid, cfg, argv):
     if forb:
         violation({"broken": "theorem:forbidden vernacular in the development", "hits": forb}, nofail=True)
 
+    # 1b. thorough tier: independent re-check of the compiled property library with coqchk
+    coqchk_res = None
+    if tier == "thorough" and pr and pr["rc"] == 0:
+        rc_c, out_c, err_c, dt_c = run(["coqchk", "-silent", "-o", "-Q", "theories", "Wharf", "Wharf.Properties." + pid], cwd=COQ, timeout=3000)
+        txt = out_c + err_c
+        m = re.search(r"\* Axioms:(.*?)\* Constants/Inductives relying on type-in-type", txt, re.S)
+        axioms_txt = " ".join(m.group(1).split()) if m else "?"
+        coqchk_res = {"rc": rc_c, "wall_s": round(dt_c, 1), "axioms": axioms_txt}
+        if rc_c != 0:
+            violation({"broken": "theorem:coqchk rejects Wharf.Properties." + pid, "log": txt[-3000:]}, nofail=True)
+        elif axioms_txt not in ("<none>",) and any(a.split(".")[-1] not in {x.split(".")[-1] for x in ALLOWED_AXIOMS} for a in axioms_txt.split()):
+            violation({"broken": "theorem:coqchk lists axioms outside the trusted base", "axioms": axioms_txt}, nofail=True)
+
     # 2. Go harness from /repo's working tree
     rc, log, dt_go = go_build()
     if rc != 0:
@@ -379,6 +392,7 @@ def main(pid, cfg, argv):
             "search_cases": searched,
             "class_histogram": dict(classes.most_common(60)),
             "exhaustive": False,
+            "coqchk": coqchk_res,
             "timing_s": {"coq_make": round(dt_make, 1), "coq_properties": pr["wall_s"] if pr else None, "go_build": round(dt_go, 1), "harness": round(dt_h, 1)},
         }
     finally:
